@@ -10,6 +10,14 @@ from .. import common, gen, render, tlc
 from ..report import Report
 from . import designlevel
 
+TLC_SCHEMAS = {
+    "S1": "proto S1\n\nmessage A {\n    uint3 x = 1\n}\n\nmessage B {\n    uint5 y = 1\n}\n\n"
+          "message Top {\n    A a = 1\n    B b = 2\n}\n",
+    "S2": "proto S2\n\nmessage A {\n    uint7 x = 1\n    bool z = 2\n}\n\nmessage B {\n    uint5 y = 1\n}\n\n"
+          "message Top {\n    A a = 1\n    B b = 2\n}\n",
+    "S3": "proto S3\n\nmessage C {\n    uint3 x = 1\n}\n\nmessage Top {\n    C a = 1\n}\n",
+}
+
 HAND = {
     "h1": "proto h1\n\nenum color_kind : uint3 {\n    COLOR_KIND_RED = 0\n    COLOR_KIND_BLUE = 1\n}\n\n"
           "message sensor_data {\n    uint3 sensor_kind = 1\n    color_kind c = 2\n}\n\n"
@@ -30,7 +38,7 @@ def run_session(jobs, env_extra, cwd):
     env.pop("PYTHONPATH", None)
     env.update(env_extra)
     p = subprocess.run([common.PY, os.path.join(common.VERIF, "bpverif", "sessiondrv.py"), common.REPO],
-                       input=json.dumps(jobs), capture_output=True, text=True, env=env, cwd=cwd, timeout=300)
+                       input=json.dumps(jobs), capture_output=True, text=True, env=env, cwd=cwd, timeout=3000)
     try:
         return json.loads(p.stdout.strip().splitlines()[-1])
     except Exception:
@@ -47,7 +55,7 @@ def main(tier, replay=None):
         "in-process sequences call bitproto._main.main repeatedly inside one interpreter",
     ]
     for keying, must_hold in (("identity", True), ("name", False), ("name-no-lang", False)):
-        r = designlevel.run_cfg("Session", open(common.SPEC + "/MC_Session_%s.cfg" % keying).read(), timeout=300)
+        r = designlevel.run_cfg("Session", open(common.SPEC + "/MC_Session_%s.cfg" % keying).read(), timeout=1800)
         tlc.machinery_check(r, "Session " + keying)
         if must_hold:
             rep.add_tlc(r, "design:Session with identity-keyed caches, schedules of length <= 3")
@@ -75,6 +83,13 @@ def main(tier, replay=None):
             trad = not any(d_.get("ext") for ds in pr["files"].values() for d_ in _all(ds)) and \
                 not any(_ext_t(d_) for ds in pr["files"].values() for d_ in _all(ds))
             schemas["r%d" % k] = (d, "main.bitproto", trad, ["Top"])
+        # the three schemas of Session.tla: S1 and S2 define A and B (A differently), S3 defines C with S1.A's body
+        for sid_, text in TLC_SCHEMAS.items():
+            d = os.path.join(root, sid_)
+            os.makedirs(d)
+            with open(os.path.join(d, sid_ + ".bitproto"), "w") as f:
+                f.write(text)
+            schemas[sid_] = (d, sid_ + ".bitproto", True, ["Top"])
         jobs = []
         for sid, (d, fn, trad, tops) in schemas.items():
             for lang in ("c", "go", "py"):
@@ -94,6 +109,30 @@ def main(tier, replay=None):
             schedules.append([jobs[a], jobs[b]])
         for _ in range(nsched // 2):
             schedules.append([rng.choice(jobs) for _ in range(rng.randint(3, 5))])
+        # direction spec -> code: every behaviour of Session.tla (three steps over compile jobs and restarts),
+        # written by TLC; a restart ends a process, so a behaviour is replayed as its process segments
+        rd = designlevel.run_cfg("MC_SessionDump", open(common.SPEC + "/MC_SessionDump.cfg").read(), timeout=1800, workers=1)
+        tlc.machinery_check(rd, "MC_SessionDump")
+        if not rd.ok:
+            raise common.MachineryError("MC_SessionDump: %s" % rd.violated)
+        rep.add_tlc(rd, "spec->code:every behaviour of Session (3 steps), written by TLC and replayed into compiler processes")
+        behaviours = [json.loads(x[2:]) for x in rd.lines if x.startswith("H|")]
+        if not behaviours:
+            raise common.MachineryError("MC_SessionDump printed no behaviour")
+        segs = set()
+        for h in behaviours:
+            cur = []
+            for st in h + [{"a": "restart"}]:
+                if st["a"] == "restart":
+                    if cur:
+                        segs.add(tuple(cur))
+                    cur = []
+                else:
+                    cur.append((st["schema"], st["lang"]))
+        tlc_first = len(schedules)
+        for seg in sorted(segs):
+            schedules.append([{"sid": sid_, "lang": lang_, "O": False, "F": None, "endian": "both"} for sid_, lang_ in seg])
+        rep.cov["session_behaviours_replayed"] = {"behaviours": len(behaviours), "distinct_process_segments": len(segs)}
         plans = []
         for si, sched in enumerate(schedules):
             hs = "0" if si < len(jobs) else rng.choice(["0", "1", "424242", "random", "4294967295"])
